@@ -391,3 +391,173 @@ pub fn run<G: AffineRepr>(curve: &str, ci: u64, seed: u64, tier: &str, out: &mut
         let _ = writeln!(out, "ALLOC {} claim={} input={} peak={} result={}", curve, claim, b.len(), peak, code);
     }
 }
+
+/// C04 sweep on the real code: every single-bit flip of the encoding, every single-field perturbation, every
+/// pairwise swap of point fields, round surgery.  Outcome classes: rejected at decoding, decodes to the identical
+/// object, rejected by verify, ACCEPTED (a violation), panic.
+pub fn integrity<G: AffineRepr>(curve: &str, ci: u64, seed: u64, tier: &str, out: &mut String) {
+    type F<G> = <G as AffineRepr>::ScalarField;
+    let mut rng = ChaChaRng::seed_from_u64(seed ^ (ci << 20) ^ 0x1c04);
+    let thorough = tier == "thorough";
+    let pc = PedersenGens::<G>::default();
+    let bp = BulletproofGens::<G>::new(8, 1);
+    let shapes: Vec<(usize, usize)> = if thorough { vec![(2, 0), (1, 2), (1, 0), (0, 0), (3, 2), (0, 1)] } else { vec![(2, 0), (1, 2), (1, 0)] };
+    let ps = { let mut b = vec![]; pc.B.serialize_compressed(&mut b).unwrap(); b.len() };
+    let ss = { let mut b = vec![]; F::<G>::from(1u64).serialize_compressed(&mut b).unwrap(); b.len() };
+    for (pi, (n1, n2)) in shapes.iter().enumerate() {
+        let prog = circuit::<G>(*n1, *n2, &mut rng);
+        let pr = run_prover::<G>(b"hostile", &prog, &vec![], &pc, &bp, rng.gen(), &[]);
+        let proof = match pr.result { Ok(Ok(p)) => p, _ => { let _ = writeln!(out, "INTEGRITY-ERROR {} prover failed", curve); continue } };
+        let bytes = proof.to_bytes().unwrap();
+        let base = verify_once::<G>(&prog, &pr.commitments, &proof, &pc, &bp);
+        let _ = writeln!(out, "BASE {} {} n1={} n2={} len={} verdict={}", curve, pi, n1, n2, bytes.len(), base);
+        // classify one candidate encoding
+        let classify = |b: &[u8], what: &str| -> u8 {
+            mark(what, b);
+            let r = catch_unwind(AssertUnwindSafe(|| match R1CSProof::<G>::from_bytes(b) {
+                Err(_) => 0u8,
+                Ok(p2) => {
+                    if p2.to_bytes().unwrap() == bytes { 1 } else if verify_once::<G>(&prog, &pr.commitments, &p2, &pc, &bp) == 0 { 3 } else { 2 }
+                }
+            }));
+            r.unwrap_or(9)
+        };
+        // (a) all single-bit flips
+        let mut cnt = [0usize; 10];
+        let mut first = String::from("-");
+        for i in 0..bytes.len() * 8 {
+            let mut b = bytes.clone();
+            b[i / 8] ^= 1 << (i % 8);
+            let c = classify(&b, "flip");
+            cnt[c as usize] += 1;
+            if (c == 3 || c == 9) && first == "-" { first = format!("bit{}:{}", i, hex(&b)); }
+        }
+        let _ = writeln!(out, "FLIP {} {} total={} decode_rejected={} identical={} verify_rejected={} accepted={} panicked={} first={}", curve, pi, bytes.len() * 8, cnt[0], cnt[1], cnt[2], cnt[3], cnt[9], first);
+        // (b) single-field perturbations
+        let parts = proof_parts(&proof);
+        let k = parts.l.len();
+        let npts = 11 + 2 * k;
+        let get = |p: &ProofParts<G>, i: usize| -> G { if i < 11 { p.points[i] } else if i < 11 + k { p.l[i - 11] } else { p.r[i - 11 - k] } };
+        let set = |p: &mut ProofParts<G>, i: usize, x: G| { if i < 11 { p.points[i] = x } else if i < 11 + k { p.l[i - 11] = x } else { p.r[i - 11 - k] = x } };
+        let enc = |p: &ProofParts<G>| -> Vec<u8> {
+            let mut b = vec![];
+            for x in &p.points { x.serialize_compressed(&mut b).unwrap(); }
+            for x in &p.scalars { x.serialize_compressed(&mut b).unwrap(); }
+            p.l.serialize_compressed(&mut b).unwrap();
+            p.r.serialize_compressed(&mut b).unwrap();
+            p.a.serialize_compressed(&mut b).unwrap();
+            p.b.serialize_compressed(&mut b).unwrap();
+            b
+        };
+        let mut cnt = [0usize; 10];
+        let mut first = String::from("-");
+        let mut tried = 0;
+        let mut note = |c: u8, what: String, b: &[u8], cnt: &mut [usize; 10], first: &mut String| { cnt[c as usize] += 1; if (c == 3 || c == 9 || c == 1) && first == "-" { *first = format!("{}:{}", what, hex(b)); } };
+        for i in 0..npts {
+            let x = get(&parts, i);
+            let cands: Vec<(&str, G)> = vec![
+                ("negate", (-x.into_group()).into_affine()),
+                ("plus-B", (x.into_group() + pc.B.into_group()).into_affine()),
+                ("plus-Bblinding", (x.into_group() + pc.B_blinding.into_group()).into_affine()),
+                ("double", (x.into_group() + x.into_group()).into_affine()),
+                ("random", (pc.B.into_group() * F::<G>::rand(&mut rng)).into_affine()),
+                ("identity", G::zero()),
+            ];
+            for (nm, y) in cands {
+                if y == x { continue; }
+                let mut p2 = proof_parts(&proof);
+                set(&mut p2, i, y);
+                let b = enc(&p2);
+                let c = classify(&b, "field");
+                tried += 1;
+                note(c, format!("point{}:{}", i, nm), &b, &mut cnt, &mut first);
+            }
+        }
+        for si in 0..5 {
+            let cur = if si < 3 { parts.scalars[si] } else if si == 3 { parts.a } else { parts.b };
+            for (nm, y) in [("plus1", cur + F::<G>::from(1u64)), ("minus1", cur - F::<G>::from(1u64)), ("negate", -cur), ("zero", F::<G>::zero()), ("double", cur + cur), ("random", F::<G>::rand(&mut rng))] {
+                if y == cur { continue; }
+                let mut p2 = proof_parts(&proof);
+                if si < 3 { p2.scalars[si] = y } else if si == 3 { p2.a = y } else { p2.b = y }
+                let b = enc(&p2);
+                let c = classify(&b, "field");
+                tried += 1;
+                note(c, format!("scalar{}:{}", si, nm), &b, &mut cnt, &mut first);
+            }
+        }
+        // a <-> b
+        { let mut p2 = proof_parts(&proof); std::mem::swap(&mut p2.a, &mut p2.b); if p2.a != parts.a { let b = enc(&p2); let c = classify(&b, "field"); tried += 1; note(c, "swap-a-b".into(), &b, &mut cnt, &mut first); } }
+        let _ = writeln!(out, "FIELD {} {} total={} decode_rejected={} identical={} verify_rejected={} accepted={} panicked={} first={}", curve, pi, tried, cnt[0], cnt[1], cnt[2], cnt[3], cnt[9], first);
+        // (b') adaptive compensation: shift one blinding opening, read the verifier's challenges for the shifted proof
+        // (all public), and try to absorb the shift in the other opening.  Sound only if BOTH are bound before w and r.
+        let mut cnt = [0usize; 10];
+        let mut first = String::from("-");
+        let mut tried = 0;
+        for delta in [F::<G>::from(1u64), F::<G>::rand(&mut rng)] {
+            for dir in 0..2 {
+                let mut p1 = proof_parts(&proof);
+                if dir == 0 { p1.scalars[1] += delta } else { p1.scalars[2] += delta }
+                let pf1 = match proof_from_parts(&p1) { Some(p) => p, None => continue };
+                let vr = run_verifier::<G>(b"hostile", &prog, &pr.commitments, &pf1, &pc, &bp);
+                let ch: Vec<F<G>> = crate::comp_r1cs::chals::<F<G>>(&vr.log_scalars);
+                let r = match ch.last() { Some(r) if !r.is_zero() => *r, _ => continue };
+                let mut p2 = proof_parts(&pf1);
+                // keep  e_blinding + r * t_x_blinding  unchanged
+                if dir == 0 { p2.scalars[2] -= r * delta } else { p2.scalars[1] -= delta * ark_ff::Field::inverse(&r).unwrap() }
+                let b = enc(&p2);
+                let c = classify(&b, "adaptive");
+                tried += 1;
+                note(c, format!("adaptive-blinding-compensation-dir{}", dir), &b, &mut cnt, &mut first);
+            }
+        }
+        let _ = writeln!(out, "ADAPT {} {} total={} decode_rejected={} identical={} verify_rejected={} accepted={} panicked={} first={}", curve, pi, tried, cnt[0], cnt[1], cnt[2], cnt[3], cnt[9], first);
+        // (c) all pairwise swaps of point fields
+        let mut cnt = [0usize; 10];
+        let mut first = String::from("-");
+        let mut tried = 0;
+        for i in 0..npts {
+            for j in (i + 1)..npts {
+                let (x, y) = (get(&parts, i), get(&parts, j));
+                if x == y { continue; }
+                let mut p2 = proof_parts(&proof);
+                set(&mut p2, i, y);
+                set(&mut p2, j, x);
+                let b = enc(&p2);
+                let c = classify(&b, "swap");
+                tried += 1;
+                note(c, format!("swap{}-{}", i, j), &b, &mut cnt, &mut first);
+            }
+        }
+        let _ = writeln!(out, "SWAP {} {} total={} decode_rejected={} identical={} verify_rejected={} accepted={} panicked={} first={}", curve, pi, tried, cnt[0], cnt[1], cnt[2], cnt[3], cnt[9], first);
+        // (d) round surgery
+        let mut cnt = [0usize; 10];
+        let mut first = String::from("-");
+        let mut tried = 0;
+        let mut variants: Vec<(String, ProofParts<G>)> = vec![];
+        { let mut p2 = proof_parts(&proof); p2.l.push(pc.B); p2.r.push(pc.B_blinding); variants.push(("add-round".into(), p2)); }
+        { let mut p2 = proof_parts(&proof); p2.l.insert(0, pc.B); p2.r.insert(0, pc.B_blinding); variants.push(("add-round-front".into(), p2)); }
+        if k > 0 {
+            { let mut p2 = proof_parts(&proof); p2.l.pop(); p2.r.pop(); variants.push(("drop-last-round".into(), p2)); }
+            { let mut p2 = proof_parts(&proof); p2.l.remove(0); p2.r.remove(0); variants.push(("drop-first-round".into(), p2)); }
+            { let mut p2 = proof_parts(&proof); let (l, r) = (p2.l[k - 1], p2.r[k - 1]); p2.l.push(l); p2.r.push(r); variants.push(("dup-last-round".into(), p2)); }
+            { let mut p2 = proof_parts(&proof); p2.l.pop(); variants.push(("drop-L-only".into(), p2)); }
+            { let mut p2 = proof_parts(&proof); p2.r.pop(); variants.push(("drop-R-only".into(), p2)); }
+            { let mut p2 = proof_parts(&proof); std::mem::swap(&mut p2.l, &mut p2.r); variants.push(("swap-L-R-lists".into(), p2)); }
+        }
+        if k > 1 {
+            for i in 0..k { for j in (i + 1)..k {
+                let mut p2 = proof_parts(&proof); p2.l.swap(i, j); p2.r.swap(i, j); variants.push((format!("reorder-rounds-{}-{}", i, j), p2));
+            } }
+            { let mut p2 = proof_parts(&proof); p2.l.reverse(); p2.r.reverse(); variants.push(("reverse-rounds".into(), p2)); }
+        }
+        for (nm, p2) in variants {
+            let b = enc(&p2);
+            if b == bytes { continue; }
+            let c = classify(&b, "rounds");
+            tried += 1;
+            note(c, nm, &b, &mut cnt, &mut first);
+        }
+        let _ = writeln!(out, "ROUNDS {} {} total={} decode_rejected={} identical={} verify_rejected={} accepted={} panicked={} first={}", curve, pi, tried, cnt[0], cnt[1], cnt[2], cnt[3], cnt[9], first);
+        let _ = (ps, ss);
+    }
+}
